@@ -54,10 +54,19 @@ func (vc *FuncVC) execBlock(b *ssa.BasicBlock) {
 			vc.execStore(st, reach, ins)
 		case *ssa.Convert:
 			v := vc.convert(vc.val(ins.X), ins.X.Type(), ins.Type())
-			// []byte("constant"): strings are opaque, but the length of a constant's byte slice is known
-			if c, ok := ins.X.(*ssa.Const); ok && c.Value != nil && c.Value.Kind() == constant.String && v.Kind == vSlice && len(v.Elems) >= 2 {
+			// []byte(s) has strlen(s) bytes; string(b) for a byte slice b has len(b) bytes
+			if isString(ins.X.Type()) && v.Kind == vSlice && len(v.Elems) >= 2 {
 				if b, isB := ins.Type().Underlying().(*types.Slice).Elem().Underlying().(*types.Basic); isB && b.Kind() == types.Uint8 {
-					vc.assume(Eq(v.Elems[1].T, IntLit(int64(len(constant.StringVal(c.Value))))))
+					vc.assume(Eq(v.Elems[1].T, vc.strLen(vc.scalar(ins.X))))
+				}
+			}
+			if isString(ins.Type()) {
+				if xv := vc.val(ins.X); xv.Kind == vSlice && len(xv.Elems) >= 2 {
+					if sl, isS := ins.X.Type().Underlying().(*types.Slice); isS {
+						if b, isB := sl.Elem().Underlying().(*types.Basic); isB && b.Kind() == types.Uint8 {
+							vc.assume(Eq(vc.strLen(v.T), xv.Elems[1].T))
+						}
+					}
 				}
 			}
 			vc.vals[ins] = v
@@ -117,7 +126,17 @@ func (vc *FuncVC) execBlock(b *ssa.BasicBlock) {
 			}
 			vc.note("type assertion modelled as unconstrained (any value of the asserted type, any ok) at %s", vc.pos(ins.Pos()))
 			vc.vals[ins] = vc.freshVal("tassert", ins.Type())
-		case *ssa.MakeMap, *ssa.MapUpdate, *ssa.Lookup, *ssa.Range, *ssa.Next,
+		case *ssa.Lookup:
+			if isString(ins.X.Type()) {
+				// s[i]: a byte of the string, in range
+				idx := vc.scalar(ins.Index)
+				vc.oblige("S", fmt.Sprintf("bounds#%d", vc.ord("bounds")), reach, And(Le(IntLit(0), idx), Lt(idx, vc.strLen(vc.scalar(ins.X)))), vc.propTags("C04"), ins.Pos(), "index in range")
+				vc.vals[ins] = vc.freshVal("strbyte", ins.Type())
+				break
+			}
+			vc.unsupported("%T at %s", ins, vc.pos(ins.Pos()))
+			vc.vals[ins] = vc.freshVal("unsup", ins.Type())
+		case *ssa.MakeMap, *ssa.MapUpdate, *ssa.Range, *ssa.Next,
 			*ssa.MakeClosure, *ssa.Defer, *ssa.Go, *ssa.Select, *ssa.Send, *ssa.RunDefers, *ssa.MakeChan, *ssa.SliceToArrayPointer, *ssa.MultiConvert:
 			vc.unsupported("%T at %s", ins, vc.pos(ins.Pos()))
 			if v, ok := ins.(ssa.Value); ok {
@@ -347,17 +366,16 @@ func (vc *FuncVC) execSlice(st *State, reach Term, ins *ssa.Slice) {
 		es := vc.L.sizeOf(xt.Elem())
 		vc.vals[ins] = &Val{Kind: vSlice, Elems: []*Val{{T: Add(v.Elems[0].T, Mul(IntLit(es), lo))}, {T: Sub(hi, lo)}, {T: capT}}, GoType: ins.Type()}
 	default:
-		// strings: lengths are not modelled, no bounds obligation (listed as not covered) - except for a constant
-		// string, whose length is known
-		if c, ok := ins.X.(*ssa.Const); ok && c.Value != nil && c.Value.Kind() == constant.String {
-			n := IntLit(int64(len(constant.StringVal(c.Value))))
-			hi = n
-			if ins.High != nil {
-				hi = vc.scalar(ins.High)
-			}
-			bounds(hi, n)
+		// strings: the length is strlen(code) - exact for a constant, otherwise whatever the facts on the way say
+		n := vc.strLen(vc.scalar(ins.X))
+		hi = n
+		if ins.High != nil {
+			hi = vc.scalar(ins.High)
 		}
-		vc.vals[ins] = vc.freshVal("strslice", ins.Type())
+		bounds(hi, n)
+		r := vc.freshVal("strslice", ins.Type())
+		vc.assume(Implies(reach, Eq(vc.strLen(r.T), Sub(hi, lo))))
+		vc.vals[ins] = r
 	}
 }
 
@@ -507,6 +525,10 @@ func (vc *FuncVC) execBinOp(st *State, reach Term, ins *ssa.BinOp) {
 			vc.vals[ins] = &Val{T: Eq(x, y), GoType: rt}
 		case token.NEQ:
 			vc.vals[ins] = &Val{T: Ne(x, y), GoType: rt}
+		case token.ADD:
+			r := vc.freshVal("strcat", rt)
+			vc.assume(Eq(vc.strLen(r.T), Add(vc.strLen(x), vc.strLen(y))))
+			vc.vals[ins] = r
 		default:
 			vc.vals[ins] = vc.freshVal("strop", rt)
 		}
